@@ -50,6 +50,10 @@ func genC01(g gen.G) C01Case {
 	}
 	o.Schema.DepBoost = g.Chance(50)
 	c := C01Case{World: g.World(o)}
+	if g.Chance(12) {
+		// value-centred world: deeply nested values of rich types
+		c.World = g.ValueWorld(gen.CfgOpts{Typed: g.Bool(), Layout: true, HalfTyped: 6, Violations: 5})
+	}
 	if g.Chance(30) {
 		p := g.Int(0, len(c.World.Paths)-1)
 		f := c.World.Paths[p].Files[0]
